@@ -32,6 +32,7 @@ Pinned == {"basepath_needs_host",        \* F-C17-4   servers only when there is
            "back_http_https_only",       \* F-C17-10
            "back_binary_is_parameter",   \* F-C17-11  every binary string schema is taken for a form file parameter
            "back_json_only",             \* F-C17-12
+           "back_input_nullable_reset",  \* F-C17-18/19 FromV3 resets nullable in its input; a shared body with several media types loses x-nullable
            "back_body_name_search_first"} \* F-C17-15  a free name among body / requestBody is demanded even when x-originalParamName is there
 
 (* switches of behaviours that have been repaired in the tree (not in Pinned any more): *)
@@ -91,6 +92,7 @@ ContentFor(mts, schema) ==
 ToV3Plain(p, names) ==
    O(If(Has(p, "in"), KV("in", Opt(p, "in"))) @@ If(Has(p, "name"), KV("name", Opt(p, "name")))
      @@ If(IsTrue(p, "required") \/ Opt(p, "in") = S("path"), KV("required", B(TRUE)))
+     @@ If(Has(p, "x-nullable"), KV("x-nullable", Opt(p, "x-nullable")))     \* extensions stay on the parameter object
      @@ KV("schema", ToV3Schema(Restrict(p, ParamKeys), names)))
 (* ToV3Parameter, body branch *)
 ToV3Body(p, names, consumes) ==
@@ -105,6 +107,7 @@ ToV3Form(p, names) ==
                           [] k = "format" -> IF isFile THEN S("binary") ELSE p.m[k]
                           [] OTHER -> p.m[k]]
         @@ KV("x-formData-name", Opt(p, "name"))
+        @@ If(Has(p, "x-nullable"), KV("x-nullable", Opt(p, "x-nullable")))  \* extensions go into the property schema as they are
         @@ If(IsTrue(p, "required"), KV("required", A(<<Opt(p, "name")>>)))
         @@ If(Has(p, "items"), KV("items", ToV3Schema(p.m["items"], names))))
 
@@ -277,6 +280,7 @@ FromV3Param(p, comps, names) ==
    IF Has(p, "$ref") THEN RefO(FromV3RefStr(RefV(p), names))
    ELSE LET base == If(Has(p, "in"), KV("in", Opt(p, "in"))) @@ If(Has(p, "name"), KV("name", Opt(p, "name")))
                     @@ If(IsTrue(p, "required"), KV("required", B(TRUE)))
+                    @@ If(Has(p, "x-nullable"), KV("x-nullable", Opt(p, "x-nullable")))
         IN IF ~Has(p, "schema") THEN O(base)
            ELSE LET r == FromV3Schema(p.m["schema"], comps, names) IN
                 IF IsParam(r) THEN
@@ -298,6 +302,7 @@ FromV3FormData(sc, comps, names) ==
                         \cup (IF Has(v, "format") /\ "back_form_no_format" \notin Dev /\ v.m["format"] # S("binary") THEN {"format"} ELSE {})
              it == IF Has(v, "items") THEN FromV3Schema(v.m["items"], EmptyO, names) ELSE Nul
          IN O(KV("in", S("formData")) @@ KV("name", S(n)) @@ If(reqd, KV("required", B(TRUE)))
+              @@ If(Has(v, "x-nullable"), KV("x-nullable", Opt(v, "x-nullable")))
               @@ [k \in keep |-> IF k = "type" /\ Opt(v, "format") = S("binary") THEN S("file") ELSE v.m[k]]
               @@ If(Has(v, "items") /\ ~IsParam(it), KV("items", it)))
       : n \in Keys(props)}
@@ -318,7 +323,17 @@ FromV3Response(r, comps, names) ==
              @@ If(Keys(Sub(r, "headers")) # {}, KV("headers", FromV3Headers(Sub(r, "headers"), comps, names))))
 
 (* fromV3RequestBodies: [params |-> set of v2 parameters, consumes |-> tagged array or null] *)
-FromV3ReqBody(name, rb, comps, names) ==
+(* FromV3SchemaRef resets Nullable on the v3 schema it converts (it edits its input); ToV3 shares one   *)
+(* schema between the media types of a body, so of several conversions of that schema only the first  *)
+(* still sees nullable.  FromV3Operation keeps the first parameter, the loop over                      *)
+(* components.requestBodies in FromV3 keeps the last (keepsLast).                                      *)
+RECURSIVE StripNullable(_)
+StripNullable(s) ==
+   CASE s.t = "obj" -> IF Has(s, "$ref") THEN s ELSE O([k \in DOMAIN s.m \ {"nullable"} |-> StripNullable(s.m[k])])
+     [] s.t = "arr" -> A([i \in DOMAIN s.a |-> StripNullable(s.a[i])])
+     [] OTHER -> s
+
+FromV3ReqBody(name, rb, comps, names, keepsLast) ==
    IF Has(rb, "$ref") THEN [params |-> {RefO(FromV3RefStr(RefV(rb), names))}, consumes |-> Nul]
    ELSE LET content == Sub(rb, "content")
             formMts == Keys(content) \cap FormMTs
@@ -328,7 +343,10 @@ FromV3ReqBody(name, rb, comps, names) ==
               [params |-> FromV3FormData(Sub(content.m[CHOOSE k \in formMts : TRUE], "schema"), comps, names), consumes |-> consumes]
            ELSE IF otherMts # {} THEN
               LET mt == content.m[CHOOSE k \in otherMts : TRUE]
-                  sc == IF Has(mt, "schema") THEN FromV3Schema(mt.m["schema"], comps, names) ELSE Nul
+                  seenBefore == keepsLast /\ Cardinality(otherMts) >= 2 /\ "back_input_nullable_reset" \in Dev
+                  sc == IF Has(mt, "schema")
+                        THEN FromV3Schema(IF seenBefore THEN StripNullable(mt.m["schema"]) ELSE mt.m["schema"], comps, names)
+                        ELSE Nul
                   nm == IF Has(rb, "x-originalParamName") THEN Opt(rb, "x-originalParamName") ELSE S(name)
               IN [params |-> {O(KV("in", S("body")) @@ KV("name", nm) @@ If(IsTrue(rb, "required"), KV("required", B(TRUE)))
                                 @@ If(sc # Nul /\ ~IsParam(sc), KV("schema", sc)))},
@@ -340,7 +358,7 @@ FromV3Op(op, comps, names) ==
    LET ps == {FromV3Param(x, comps, names) : x \in Elems(op, "parameters")}
        taken == {StrOf(Opt(x, "name"), "") : x \in Elems(op, "parameters")}
        bodyName == IF "body" \notin taken THEN "body" ELSE "requestBody"
-       rb == IF Has(op, "requestBody") THEN FromV3ReqBody(bodyName, op.m["requestBody"], comps, names)
+       rb == IF Has(op, "requestBody") THEN FromV3ReqBody(bodyName, op.m["requestBody"], comps, names, FALSE)
              ELSE [params |-> {}, consumes |-> Nul]
        all == ps \cup rb.params
    IN IF Has(op, "requestBody") /\ {"body", "requestBody"} \subseteq taken /\ "back_body_name_search_first" \in Dev
@@ -391,12 +409,12 @@ FromV3Doc(d3, hosts, bases) ==
                      ELSE LET v == schemas.m[n] nm == StrOf(Opt(v, "x-formData-name"), n) IN
                           O(KV("in", S("formData")) @@ KV("name", S(nm))
                             @@ If(nm \in StrSet(Opt(v, "required")), KV("required", B(TRUE)))
-                            @@ [k \in Keys(v) \cap (ParamKeys \ {"items"}) |-> v.m[k]]
+                            @@ [k \in Keys(v) \cap ((ParamKeys \ {"items"}) \cup {"x-nullable"}) |-> v.m[k]]
                             @@ If(Has(v, "items"), KV("items", FromV3Schema(v.m["items"], comps, names))))
        defN == {n \in Keys(schemas) : ~IsParam(conv(n)) /\ ~sharedForm(n)}
        prmN == Keys(schemas) \ defN
        rbs == Sub(comps, "requestBodies")
-       rbConv(n) == FromV3ReqBody(n, rbs.m[n], comps, names)
+       rbConv(n) == FromV3ReqBody(n, rbs.m[n], comps, names, TRUE)
        rbParams == UNION {{[n |-> IF Opt(p, "in") = S("formData") THEN StrOf(Opt(p, "name"), n) ELSE n, p |-> p] : p \in rbConv(n).params}
                             : n \in Keys(rbs)}
        rbConsumes == {rbConv(n).consumes : n \in Keys(rbs)} \ {Nul}
